@@ -1790,7 +1790,7 @@ func judgeEdit(o *caseOut, c *VCase, s *vSession, g *refGraph, root map[string]V
 		o.violation(c, kindOp+"-"+out.kind, fmt.Sprintf("%s on %s did not return within %v %s", op, encReqs(root), vTimeout, out.msg), step, "")
 		return out.kind, nil
 	}
-	judgeFaults(o, c, g, root, op, out, step)
+	judgeFaults(o, c, g, root, op, out, step, branch)
 	if out.kind != "ok" {
 		return out.kind, nil
 	}
@@ -1990,7 +1990,7 @@ func cfgLoads(r map[string]VMod) error {
 // error or return exactly what it returns without the fault (`clean`, itself judged against the model and the
 // reference); it must not touch the requirements it was given; and once the fault is gone the same edit — with the
 // resolver that saw the fault and with a fresh one over the same cache — must give the fault-free result.
-func judgeFaults(o *caseOut, c *VCase, g *refGraph, root map[string]VMod, op string, clean opOut, step int) {
+func judgeFaults(o *caseOut, c *VCase, g *refGraph, root map[string]VMod, op string, clean opOut, step int, branch string) {
 	kindOp := op
 	if strings.HasPrefix(op, "get:") {
 		kindOp = "get"
@@ -2054,8 +2054,13 @@ func judgeFaults(o *caseOut, c *VCase, g *refGraph, root map[string]VMod, op str
 		case faulted.kind == "hang" || faulted.kind == "panic":
 			o.violation(c, kindOp+"-"+faulted.kind+"-under-fault", fmt.Sprintf("%s on %s under %s (%s cache): %s %s", op, given, fault, cache, faulted.kind, faulted.msg), step, "")
 		case faulted.kind == "ok" && show(faulted) != show(clean):
+			key := ""
+			if branch == "down" {
+				// mvs.Downgrade treats "cannot load the requirements of m" as "m is unusable" and excludes it (D31)
+				key = "get-downgrade-swallows-load-error"
+			}
 			o.violation(c, kindOp+"-fault-swallowed", fmt.Sprintf("%s on %s under %s (%s cache) reported success with %s; without the fault it gives %s",
-				op, given, fault, cache, show(faulted), show(clean)), step, "")
+				op, given, fault, cache, show(faulted), show(clean)), step, key)
 		}
 		if encReqs(root) != given {
 			o.violation(c, kindOp+"-input-modified", fmt.Sprintf("%s under %s changed the requirements it was given: %s became %s", op, fault, given, encReqs(root)), step, "")
